@@ -1556,60 +1556,60 @@ func ruleI13(c *Ctx) {
 			}
 		})
 		for _, fn := range fns {
-		eachInstr(fn, func(in ssa.Instruction) {
-			call, ok := in.(*ssa.Call)
-			if !ok {
-				return
-			}
-			cal := call.Call.StaticCallee()
-			if cal == nil || cal.Signature.Recv() == nil || !(cal.Name() == "Sub" || cal.Name() == "Add") {
-				return
-			}
-			if pp, tn := namedOf(cal.Signature.Recv().Type()); pp != "math/big" || tn != "Int" {
-				return
-			}
-			// an adjustment: executed under a condition
-			conds := pathConds(call.Block())
-			if len(conds) == 0 {
-				return
-			}
-			n++
-			key := fmt.Sprintf("starlark.%s: big-arm floor correction", name)
-			// receivers of Sign() calls in the backward slices of the guarding conditions
-			signOf := map[string]bool{}
-			for _, pc := range conds {
-				for v := range backSlice(pc.If.Cond) {
-					sc, ok := v.(*ssa.Call)
-					if !ok {
-						continue
-					}
-					sf := sc.Call.StaticCallee()
-					if sf == nil || sf.Name() != "Sign" || len(sc.Call.Args) == 0 {
-						continue
-					}
-					// which operand? follow the receiver to x.bigInt() / y.bigInt() on a parameter or receiver
-					tr := traceValue(sc.Call.Args[0])
-					for _, b := range tr.bases {
-						if bc, ok := b.v.(*ssa.Call); ok {
-							if bf := bc.Call.StaticCallee(); bf != nil && bf.Name() == "bigInt" && len(bc.Call.Args) > 0 {
-								if p, ok := bc.Call.Args[0].(*ssa.Parameter); ok {
-									signOf[p.Name()] = true
+			eachInstr(fn, func(in ssa.Instruction) {
+				call, ok := in.(*ssa.Call)
+				if !ok {
+					return
+				}
+				cal := call.Call.StaticCallee()
+				if cal == nil || cal.Signature.Recv() == nil || !(cal.Name() == "Sub" || cal.Name() == "Add") {
+					return
+				}
+				if pp, tn := namedOf(cal.Signature.Recv().Type()); pp != "math/big" || tn != "Int" {
+					return
+				}
+				// an adjustment: executed under a condition
+				conds := pathConds(call.Block())
+				if len(conds) == 0 {
+					return
+				}
+				n++
+				key := fmt.Sprintf("starlark.%s: big-arm floor correction", name)
+				// receivers of Sign() calls in the backward slices of the guarding conditions
+				signOf := map[string]bool{}
+				for _, pc := range conds {
+					for v := range backSlice(pc.If.Cond) {
+						sc, ok := v.(*ssa.Call)
+						if !ok {
+							continue
+						}
+						sf := sc.Call.StaticCallee()
+						if sf == nil || sf.Name() != "Sign" || len(sc.Call.Args) == 0 {
+							continue
+						}
+						// which operand? follow the receiver to x.bigInt() / y.bigInt() on a parameter or receiver
+						tr := traceValue(sc.Call.Args[0])
+						for _, b := range tr.bases {
+							if bc, ok := b.v.(*ssa.Call); ok {
+								if bf := bc.Call.StaticCallee(); bf != nil && bf.Name() == "bigInt" && len(bc.Call.Args) > 0 {
+									if p, ok := bc.Call.Args[0].(*ssa.Parameter); ok {
+										signOf[p.Name()] = true
+									}
 								}
 							}
-						}
-						// a helper that receives the operands as *big.Int parameters
-						if p, ok := b.v.(*ssa.Parameter); ok && len(tr.fields) == 0 {
-							signOf[p.Name()] = true
+							// a helper that receives the operands as *big.Int parameters
+							if p, ok := b.v.(*ssa.Parameter); ok && len(tr.fields) == 0 {
+								signOf[p.Name()] = true
+							}
 						}
 					}
 				}
-			}
-			if len(signOf) >= 2 {
-				c.ok(key, c.P.Pos(call.Pos()), "guarded by the signs of both operands")
-			} else {
-				c.viol(key, c.P.Pos(call.Pos()), fmt.Sprintf("the floor correction in the big-number arm of %s is not guarded by the signs of both operands (found the sign of %d operand(s)): when the truncated quotient is zero but the operands' signs differ, the result is off by one", name, len(signOf)))
-			}
-		})
+				if len(signOf) >= 2 {
+					c.ok(key, c.P.Pos(call.Pos()), "guarded by the signs of both operands")
+				} else {
+					c.viol(key, c.P.Pos(call.Pos()), fmt.Sprintf("the floor correction in the big-number arm of %s is not guarded by the signs of both operands (found the sign of %d operand(s)): when the truncated quotient is zero but the operands' signs differ, the result is off by one", name, len(signOf)))
+				}
+			})
 		}
 	}
 	if n < 2 {
@@ -1914,13 +1914,23 @@ func ruleI14(c *Ctx) {
 				}
 			}
 			for d := cv.Block(); d != nil; d = d.Idom() {
-				for _, pc := range pathConds(d) {
-					cond, neg := stripNot(pc.If.Cond)
-					bo, ok := cond.(*ssa.BinOp)
+				facts := pathFacts(d)
+				// a range predicate of the module applied to the float: the facts about its parameter
+				for _, pf := range facts {
+					hf, h, args := helperFacts(pf)
+					for i, a := range args {
+						if cands[a] && i < len(h.Params) {
+							cands[h.Params[i]] = true
+							facts = append(facts, hf...)
+						}
+					}
+				}
+				for _, pf := range facts {
+					bo, ok := pf.Cond.(*ssa.BinOp)
 					if !ok {
 						continue
 					}
-					taken := pc.Branch != neg
+					taken := pf.Truth
 					op := bo.Op
 					var isX bool
 					if cands[bo.X] {
